@@ -166,6 +166,9 @@ pub enum BState {
     KilledInjected,
     /// injected kill followed by an admin configure_bank(operational_state = n) attempt (0 Paused, 1 Operational, 2 ReduceOnly)
     KilledThenConfigure(u8),
+    /// injected kill, then the admin FREEZES the bank's settings (a frozen bank's configure requests take another code
+    /// path) and then attempts configure_bank(operational_state = n)
+    KilledFrozenThenConfigure(u8),
     /// Paused / injected kill on a bank that also carries TOKENLESS_REPAYMENTS_ALLOWED (set by the admin through
     /// configure_bank): the sunset flag must not soften the bank state
     PausedTokenless,
@@ -179,12 +182,13 @@ impl BState {
             BState::ReduceOnly => "ReduceOnly",
             BState::KilledInjected => "Killed",
             BState::KilledThenConfigure(_) => "Killed+configure",
+            BState::KilledFrozenThenConfigure(_) => "Killed+freeze+configure",
             BState::PausedTokenless => "Paused+tokenless-flag",
             BState::KilledTokenless => "Killed+tokenless-flag",
         }
     }
     fn killed(&self) -> bool {
-        matches!(self, BState::KilledInjected | BState::KilledThenConfigure(_) | BState::KilledTokenless)
+        matches!(self, BState::KilledInjected | BState::KilledThenConfigure(_) | BState::KilledFrozenThenConfigure(_) | BState::KilledTokenless)
     }
 }
 pub const STATES: [BState; 4] = [BState::Operational, BState::Paused, BState::ReduceOnly, BState::KilledInjected];
@@ -932,6 +936,14 @@ fn apply_state(w: &mut World, st: BState) -> Result<(), String> {
             set_op_state_bytes(&mut w.vm, &tk, BankOperationalState::KilledByBankruptcy);
             let _ = configure(w, op_state(n));
         }
+        BState::KilledFrozenThenConfigure(n) => {
+            set_op_state_bytes(&mut w.vm, &tk, BankOperationalState::KilledByBankruptcy);
+            let mut o = BankConfigOpt::default();
+            o.freeze_settings = Some(true);
+            let ix = w.ix_configure_bank(T, o, w.roles.admin);
+            let _ = w.vm.exec(&ix);
+            let _ = configure(w, op_state(n));
+        }
         BState::PausedTokenless | BState::KilledTokenless => {
             let mut o = BankConfigOpt::default();
             o.tokenless_repayments_allowed = Some(true);
@@ -1080,7 +1092,7 @@ fn expectation(row: Row, state: BState, col: PCol, paused: bool, baseline_ok: bo
         BState::Operational => false,
         BState::Paused | BState::PausedTokenless => row.touches_bank(),
         BState::ReduceOnly => row.refused_reduce_only(),
-        BState::KilledInjected | BState::KilledThenConfigure(_) | BState::KilledTokenless => row.touches_bank(),
+        BState::KilledInjected | BState::KilledThenConfigure(_) | BState::KilledFrozenThenConfigure(_) | BState::KilledTokenless => row.touches_bank(),
     };
     if bank_fail {
         return Expect::Fail(state.name());
@@ -1177,6 +1189,7 @@ fn extra_cells() -> Vec<(BState, PCol, i64)> {
     for n in 0..3u8 {
         v.push((BState::KilledThenConfigure(n), PCol::Never, 2 * P));
         v.push((BState::KilledThenConfigure(n), PCol::ExpiredUntouched, 2 * P));
+        v.push((BState::KilledFrozenThenConfigure(n), PCol::Never, 2 * P));
     }
     for st in [BState::PausedTokenless, BState::KilledTokenless] {
         v.push((st, PCol::Never, 2 * P));
